@@ -190,6 +190,9 @@ class World:
             self.redirect = {}
             self.rotate_after_first = None
             res["h"] = self.connections[-1] if self.connections else h1
+            if not res["ok"] and res["err"].startswith("other:Connection") and self.client.tofu_db is not None and \
+                    "unreadable" in (self.presents.get(res["h"]), act[3] if kind == "RedirectRotate" else None):
+                res["err"] = "unreadable"       # by kind, not by wording (see above)
         elif kind == "ReopenFault":
             # another client object is created on the same store while the store misbehaves (the k-th statement of opening it
             # fails): it may fail to come up, it must not take the pins with it
